@@ -30,7 +30,7 @@ def plan(tier, seed):
     quick = tier == "quick"
     secs = 20 if quick else 200
     shards = [{"name": f"trees{i}", "gen": "trees", "seconds": secs} for i in range(6 if quick else 8)]
-    for g in ("matryoshka", "cmd", "seedmut", "url", "ioc", "soup", "repeat", "layer", "echo", "expand", "xorbytes", "plainnest"):
+    for g in ("matryoshka", "cmd", "seedmut", "url", "ioc", "soup", "repeat", "layer", "echo", "expand", "xorbytes", "plainnest", "overlap"):
         shards.append({"name": g, "gen": g, "seconds": secs})
     return shards
 
